@@ -480,6 +480,9 @@ func (P *Program) Explore(fn *ssa.Function, o Options) *HarnessResult {
 				}
 				if res.Stats.ObUnknown > 0 {
 					hr.Incomplete = append(hr.Incomplete, fmt.Sprintf("%d obligations answered unknown", res.Stats.ObUnknown))
+					for _, m := range res.Stats.UnknownMsgs {
+						hr.Incomplete = append(hr.Incomplete, "unknown: "+m+" ["+trunc(res.Decisions, 120)+"]")
+					}
 				}
 				if !stop {
 					stack = append(stack, res.Pending...)
